@@ -284,6 +284,14 @@ func (s *Swarm) merge(buf []byte) (mesh.GossipData, error) {
 		return nil, err
 	}
 
+	// Remember which of the incoming subscriptions are active on our side before the merge
+	wasActive := make(map[string]bool)
+	other.Subscriptions(func(ev *event.Subscription, _ event.Value) {
+		if ev.Peer != uint64(s.router.Ourself.Name) {
+			wasActive[ev.Key()] = s.state.Has(ev)
+		}
+	})
+
 	// Merge and get the delta
 	var delta mesh.GossipData
 	if s.state.Merge(other) != nil {
@@ -294,17 +302,21 @@ func (s *Swarm) merge(buf []byte) (mesh.GossipData, error) {
 			return // Skip ourselves
 		}
 
-		// Find the active peer for this subscription event
+		// Find the active peer for this subscription event. The delta only carries the times which
+		// were newer than ours (possibly just one of them, possibly out of order), hence whether the
+		// subscription is active is told by our state after the merge and the peer is notified only
+		// when this has changed.
 		key := ev.Key()
 		peer := s.findPeer(mesh.PeerName(ev.Peer))
+		active := s.state.Has(ev)
 
 		// If the subscription is added, notify (TODO: use channels)
-		if v.IsAdded() && peer.onSubscribe(key, ev.Ssid) && peer.IsActive() {
+		if active && !wasActive[key] && peer.onSubscribe(key, ev.Ssid) && peer.IsActive() {
 			s.OnSubscribe(peer, ev)
 		}
 
 		// If the subscription is removed, notify (TODO: use channels)
-		if v.IsRemoved() && peer.onUnsubscribe(key, ev.Ssid) && peer.IsActive() {
+		if !active && wasActive[key] && peer.onUnsubscribe(key, ev.Ssid) && peer.IsActive() {
 			s.OnUnsubscribe(peer, ev)
 		}
 	})
